@@ -31,8 +31,8 @@ type c17HT struct {
 	op        string // "Hash" | "HashG1"
 	g         *groups.G
 	hasDST    bool
-	defaultOK bool   // a variant without explicit DST exists (dst == nil)
-	family    string // "bls.G1" / "bls.G2" for the cross-back-end comparison, "ed" for the reference differential
+	defaultOK bool             // a variant without explicit DST exists (dst == nil)
+	family    string           // "bls.G1" / "bls.G2" for the cross-back-end comparison, "ed" for the reference differential
 	xmd       func() hash.Hash // hash of expand_message_xmd when the function claims an RFC 9380 XMD suite
 	fresh     func(dst []byte) kyber.Point
 	hash      func(recv kyber.Point, msg, dst []byte) kyber.Point
